@@ -2,7 +2,8 @@ SPEC_PART = dict(
     props_file="C12_freq",
     legs=[dict(family="freq", focus="layout", oracles=["prop_layout"], profiles=["debug"], n_quick=30, n_thorough=400,
                panic_is_violation=True)],
-    trusted=["Frequent Items format = my reading of the Java/C++ layout (DESIGN.md Appendix A): 8-byte empty image, 4-long preamble, "
+    trusted=["Frequent Items: the Coq codec model and the theorems of this part are for i64 items only; u64 items are answered by the same model (same bits, same hash, same image bytes: harness ops 40..52), String images (u32 length + UTF-8 per item) are covered by crate-only checks: round trip equal on every accessor / row / re-serialized pairs, no panic, allocation proportional to the input",
+             "Frequent Items format = my reading of the Java/C++ layout (DESIGN.md Appendix A): 8-byte empty image, 4-long preamble, "
              "counts then items; no upstream files available offline"],
     assumptions=[],
     covers="freq (i64 items): spec_decode (fc_serialize c) = Some (abs c) for every well-formed sketch; translated constants = "
